@@ -1700,7 +1700,7 @@ def run(ck) -> None:
     except Exception as e:  # noqa: BLE001
         force_restore()
         ck.broken("probe:reentry", repr(e))
-    n = 300 if not ck.thorough else 4500
+    n = 300 if not ck.thorough else 9000
     corpus = _load_corpus()
     n_corpus = len(corpus)
     gc.collect()
